@@ -15,6 +15,10 @@ type c13Case struct {
 	C, L, K int
 	// second allocation of the pair test (C2 == 0: none)
 	C2, L2, K2 int
+	// GCWindow: parent Alloc(C, K, K) of which only the window Slice(S, E) is kept across garbage
+	// collections, then allocations of the same shape (gcpass.go)
+	GCWindow bool `json:"gc_window,omitempty"`
+	S, E     int  `json:"s,omitempty"`
 }
 
 func c13Run(cs c13Case) []F {
@@ -22,6 +26,9 @@ func c13Run(cs c13Case) []F {
 }
 
 func c13RunRaw(cs c13Case) (fs []F) {
+	if cs.GCWindow {
+		return gcReplay(typeByName(cs.Type), gcShape{cs.C, cs.K, cs.S, cs.E}, false, "Alloc")
+	}
 	t := typeByName(cs.Type)
 	ty := dyn.Types[t]
 	fail := func(kind, format string, a ...any) {
@@ -114,6 +121,11 @@ func init() {
 				cs := cases[i]
 				c.Check(cs, cs.K > 0, c13Run(cs))
 			})
+			// windows that outlive their parent across garbage collections, then allocations of the same shape
+			gcN := gcWindowPass(valTypes(), false, "Alloc", func(t int, sh gcShape, fs []F) {
+				c.Check(c13Case{Type: tn(t), C: sh.C, L: sh.K, K: sh.K, GCWindow: true, S: sh.S, E: sh.E}, true, fs)
+			})
+			c.Set("windows_kept_across_garbage_collections", gcN)
 			// many allocations in a row (a counter, a recycled arena): every one fresh and independent of the
 			// ones still alive; sequential on purpose
 			for _, t := range []int{dyn.Int8, dyn.Float64, dyn.MyInt16ID()} {
